@@ -51,17 +51,33 @@ def conditionally_called(ctx: Ctx, pid: str):
     dep_add = [(ex, e) for ex, e in inf if len(loops(e)) == 1]
     sub_add = [(ex, e) for ex, e in inf if len(loops(e)) == 2]
     okd = False
+    okv = False
     for ex, e in dep_add:
         dep = loops(e)[0][0][0]
         g = py_guard(e)
         ats = atoms_of(g)
         in_tr = [a for a in ats if pmatch("Q_d in Q_mm.transactions", a) and pmatch("Q_d in Q_mm.transactions", a)["d"] == dep]
-        in_rd = [a for a in ats if a not in in_tr and pmatch("Q_d in Q_s", a) and pmatch("Q_d in Q_s", a)["d"] == dep]
-        okd = okd or (pmatch("Q_s.add(Q_x)", e.call)["x"] == dep and len(ats) == 2 and len(in_tr) == 1 and len(in_rd) == 1 and equivalent(g, f_and(A(in_tr[0]), A(in_rd[0]))) is None
-                      and pmatch("Q_m.simultaneous_list", loops(e)[0][1]) is not None and "ready_dependent" in tstr(in_rd[0]))
+        in_rd = [a for a in ats if a not in in_tr and pmatch("Q_d in Q_s", a) and pmatch("Q_d in Q_s", a)["d"] == dep and "ready_dependent" in tstr(a)]
+        # allowed besides: "not marked yet", and "dep is not the body this one is nested in" (that one is never a dependent, the
+        # test only keeps the loop from rejecting the parent of a branch that is being visited)
+        marked = [a for a in ats if a == ("op", "in", dep, ret)]
+        parent = [a for a in ats if pmatch("any(Q_g)", a) is not None and "ready_dependent" in tstr(a) and a not in in_rd]
+        rest = [a for a in ats if a not in in_tr + in_rd + marked + parent]
+        want = f_and(*[A(a) for a in in_tr + in_rd], *[f_not(A(a)) for a in marked + parent])
+        this = (pmatch("Q_s.add(Q_x)", e.call)["x"] == dep and not rest and len(in_tr) == 1 and len(in_rd) == 1 and equivalent(g, want) is None
+                and pmatch("Q_m.simultaneous_list", loops(e)[0][1]) is not None)
+        okd = okd or this
+        if this:
+            # F31: the marked transaction is visited in turn (the bodies nested in it are conditional too)
+            for _, q in [(qx, qe) for qx in fn.exs for qe in qx.of(Effect) if pmatch("Q_l.append(Q_x)", qe.call) and any(fr[0] == "while" for fr in qe.frames)]:
+                if len(loops(q)) == 1 and pmatch("Q_l.append(Q_x)", q.call)["x"] == loops(q)[0][0][0] and loops(q)[0][1] == loops(e)[0][1] and equivalent(py_guard(q), g) is None:
+                    okv = True
     ctx.check(okd, rule + ".infects-simultaneous-dependents", dep_add[0][1].site if dep_add else fn.site, "_conditionally_called.infection.dep",
               found="; ".join(f"{tstr(e.call)} if {fstr(py_guard(e))[:160]} in {len(loops(e))} loop(s)" for _, e in dep_add) or "the simultaneous transaction itself is never marked at that nesting level",
               required="every transaction that is simultaneous with and ready-dependent on a conditionally called method is itself marked (for each such transaction, not only when it calls a new method)")
+    ctx.check(okv, rule + ".visits-marked-dependents", dep_add[0][1].site if dep_add else fn.site, "_conditionally_called.infection.dep-worklist",
+              found="a newly marked transaction is " + ("queued" if okv else "not queued"),
+              required="a newly marked transaction is put on the worklist under the same condition: the bodies nested in it (deeper condition() levels) are conditionally called too")
     oks = False
     for ex, e in sub_add:
         lp = loops(e)
